@@ -480,7 +480,7 @@ class CExec:
         if kind == "CharacterLiteral":
             return k(z3.IntVal(int(e["value"])), st)
         if kind == "StringLiteral":
-            return k(StrLit(e.get("value", "")), st)
+            return k(StrLit(e.get("value", "").strip(chr(34))), st)
         if kind == "DeclRefExpr":
             return self.declref(e, st, k)
         if kind == "MemberExpr":
